@@ -60,6 +60,7 @@ func hexList(tag string, xs []string) string {
 // walk <style> <cont> <prefix> <delim> <maxkeys> <marker0> <maxsteps>
 //
 //	style v1: GET /bucket?marker=            v2: GET /bucket?list-type=2 (&continuation-token= | &start-after=)
+//	      v2b: V2 with start-after=<marker0> on every request plus continuation-token from page 2 on (cont must be next)
 //	      dr: direct call of listFilerEntries (hook), no HTTP
 //	cont next: continue from NextMarker / NextContinuationToken     last: continue from the last key of the page
 func opWalk(a []string) (outs []string) {
@@ -67,6 +68,7 @@ func opWalk(a []string) (outs []string) {
 	prefix, delim := hx.UnHexS(a[2]), hx.UnHexS(a[3])
 	maxKeys, _ := strconv.Atoi(a[4])
 	marker := hx.UnHexS(a[5])
+	marker0 := marker
 	maxSteps, _ := strconv.Atoi(a[6])
 	outs = []string{"ok"}
 	defer func() { outs = append(outs, "N="+strconv.Itoa(countFiles())) }()
@@ -88,7 +90,16 @@ func opWalk(a []string) (outs []string) {
 				q.Set("delimiter", delim)
 			}
 			q.Set("max-keys", strconv.Itoa(maxKeys))
-			if style == "v2" {
+			if style == "v2b" {
+				// as SDK paginators do: start-after is re-sent on every request, the token added from page 2 on
+				q.Set("list-type", "2")
+				if marker0 != "" {
+					q.Set("start-after", marker0)
+				}
+				if step > 0 {
+					q.Set("continuation-token", marker)
+				}
+			} else if style == "v2" {
 				q.Set("list-type", "2")
 				if marker != "" {
 					if cont == "next" {
@@ -118,7 +129,7 @@ func opWalk(a []string) (outs []string) {
 			}
 			trunc = lr.IsTruncated
 			next = lr.NextMarker
-			if style == "v2" {
+			if style == "v2" || style == "v2b" {
 				next = lr.NextContinuationToken
 			}
 		}
